@@ -510,6 +510,11 @@ class Interp:
             if d in self.natives and not callable(self.natives[d]):
                 return self.natives[d]
             return ExtRef(d)
+        if isinstance(v, _Builtin):
+            f = _BUILTIN_ATTRS.get((v.name, name))
+            if f is None:
+                raise NotModelled("attribute %s of builtin %s" % (name, v.name))
+            return _Builtin(f, "%s.%s" % (v.name, name))
         if isinstance(v, Opaque):
             raise NotModelled("attribute %s of opaque value %s" % (name, v.name))
         if isinstance(v, ExcV):
@@ -1346,6 +1351,15 @@ class Lin(PyModel):
     def __format__(self, spec):
         return repr(self)
 
+
+
+_BUILTIN_ATTRS = {
+    ("dict", "fromkeys"): lambda it, seq, value=None: dict.fromkeys(it.iterate(seq), value),
+    ("str", "join"): lambda it, sep, seq: sep.join(it.iterate(seq)),
+    ("str", "format"): lambda it, fmt, *a, **k: fmt.format(*a, **k),
+    ("int", "from_bytes"): lambda it, b, byteorder="big", signed=False: int.from_bytes(b, byteorder, signed=signed),
+    ("bytes", "fromhex"): lambda it, x: bytes.fromhex(x),
+}
 
 
 def clone_func(node):
